@@ -9,6 +9,7 @@ mod random;
 mod exprs;
 mod cases;
 mod queries;
+mod validity;
 
 use std::collections::HashMap;
 
@@ -56,6 +57,8 @@ fn main() {
         "random" => random::main(&args),
         "exprs" => exprs::main(&args),
         "queries" => queries::main(&args),
+        "validity" => validity::main(&args),
+        "validity-trace" => validity::trace_main(&args),
         other => {
             eprintln!("unknown command {}", other);
             2
